@@ -127,7 +127,20 @@ def w_solver_pool(ctx, rng, idx):
         with probe.oracle():
             gu = (1.0 / gm.norm()) * gm
         pool.add(gu, 'init#gu')
-        r = step('ode.krylov', ode.krylov, H, gu, int(rng.integers(1, 4)), 0.1)
+        kdim = int(rng.integers(1, 4))
+        with probe.oracle():
+            # Krylov breakdown (the initial state lies in an invariant subspace smaller than the requested dimension): the next Krylov
+            # tensor is the zero tensor and its relative truncation is 0/0 - inadmissible input for ode.krylov, not a finding
+            from ..dense import dense, mat
+            Hm, v0 = mat(dense(H)), mat(dense(gu)).reshape(-1)
+            K = np.stack([np.linalg.matrix_power(Hm, j) @ v0 for j in range(kdim)], axis=1)
+            sv = np.linalg.svd(K / np.maximum(np.linalg.norm(K, axis=0, keepdims=True), 1e-300), compute_uv=False)
+            breakdown = kdim > K.shape[0] or bool(sv[-1] <= 1e-10 * sv[0])
+        if breakdown:
+            ctx.skip('krylov_breakdown_initial_state_in_small_invariant_subspace')
+            r = None
+        else:
+            r = step('ode.krylov', ode.krylov, H, gu, kdim, 0.1)
         new.append(r)
         m = dims[0]
         if all(x == m for x in dims):
